@@ -67,6 +67,10 @@ func (p *Parser) nextToken() error {
 		token, err = p.lexer.NextToken()
 	}
 	if err != nil {
+		// The lexer cannot go on. What follows counts as the end of the input, so
+		// that the token already delivered is not seen a second time and no
+		// caller is left without a current token
+		p.peekToken = &Token{Type: TokenEOF}
 		return err
 	}
 	p.peekToken = token
